@@ -7,7 +7,12 @@
 //     the decoded body must equal the bytes the instrumented stream produced;
 //   - close-count monitor: instrumented streams count Close calls and Reads that
 //     arrive after Close; the count must be exactly 1 after Write (no panic),
-//     after the release operation, and still 1 after a second Reset;
+//     after the release operation, and still 1 after a second Reset; when fasthttp
+//     wrapped the stream into streamed compression (WriteGzip/WriteDeflate,
+//     CompressHandlerBrotliLevel for gzip/deflate/br/zstd, directly or through
+//     Server.ServeConn) the count is taken once more after the compressor
+//     goroutine has exited (found through a pprof goroutine label), because the
+//     discard path and that goroutine may both close the original stream;
 //   - fault enumeration: every configuration is executed without a fault and then
 //     again with the sink failing after n bytes (n = 0, inside the head, at the
 //     head/body boundary, inside the body, last byte; PRNG positions).
@@ -18,11 +23,14 @@ import (
 	"bytes"
 	"compress/gzip"
 	"compress/zlib"
+	"context"
 	"errors"
 	"fmt"
 	"io"
 	"math/rand"
 	"net/http"
+	"runtime"
+	"runtime/pprof"
 	"strings"
 	"sync/atomic"
 	"testing"
@@ -43,10 +51,11 @@ const (
 	kBWTOn
 	kBWTOff
 	kStreamWriter
+	kCloserWithError
 	nKinds
 )
 
-var kindNames = []string{"plain", "closer", "limited", "bytes.Reader", "bytes.Buffer", "writerTo", "bodyWriterTo-on", "bodyWriterTo-off", "streamWriter"}
+var kindNames = []string{"plain", "closer", "limited", "bytes.Reader", "bytes.Buffer", "writerTo", "bodyWriterTo-on", "bodyWriterTo-off", "streamWriter", "closer+CloseWithError"}
 
 const (
 	wNone = iota
@@ -54,9 +63,10 @@ const (
 	wGzip
 	wDeflate
 	wServer
+	wCompress // CompressHandlerBrotliLevel around a handler on a RequestCtx: the response holds a compressed stream that was not written yet
 )
 
-var writeNames = []string{"nowrite", "Write", "WriteGzip", "WriteDeflate", "Server.ServeConn"}
+var writeNames = []string{"nowrite", "Write", "WriteGzip", "WriteDeflate", "Server.ServeConn", "CompressHandler"}
 
 const (
 	relNone = iota
@@ -94,6 +104,8 @@ type config struct {
 	ImmFlush bool   `json:"immediate_header_flush"`
 	SWFlush  int    `json:"sw_flush_every"`
 	Method   string `json:"method"`
+	Enc      string `json:"accept_encoding"`      // CompressHandler / Server: gzip, deflate, br, zstd ("" for Server: no compression)
+	CHWrite  bool   `json:"write_after_compress"` // CompressHandler: call Response.Write afterwards
 
 	data []byte // genData(DataSeed, DataLen), shared read-only by all executions of the configuration
 }
@@ -187,16 +199,23 @@ func genConfig(rnd *rand.Rand) config {
 	switch k := rnd.Intn(20); {
 	case k < 3:
 		c.Write = wNone
-	case k < 15 || c.IsReq:
+	case k < 12 || c.IsReq:
 		c.Write = wWrite
-	case k < 16:
+	case k < 13:
 		c.Write = wGzip
-	case k < 17:
+	case k < 14:
 		c.Write = wDeflate
+	case k < 17:
+		c.Write = wCompress
+		c.Enc = []string{"gzip", "deflate", "br", "zstd"}[rnd.Intn(4)]
+		c.CHWrite = rnd.Intn(2) == 0
 	default:
 		c.Write = wServer
+		if rnd.Intn(3) == 0 {
+			c.Enc = []string{"gzip", "deflate", "br", "zstd"}[rnd.Intn(4)]
+		}
 	}
-	if c.Write == wGzip || c.Write == wDeflate {
+	if c.compressed() {
 		c.PanicAt = -1 // the compressor goroutine does not recover: a panicking stream would kill the process (out of scope)
 	}
 	c.Release = rnd.Intn(nRel)
@@ -209,6 +228,14 @@ func genConfig(rnd *rand.Rand) config {
 	if c.Write == wServer {
 		c.Release = relNone // the server owns the response and releases it itself
 	}
+	if c.Write == wCompress {
+		if c.Release == relPool {
+			c.Release = relReset // RequestCtx.Response is not a pooled object
+		}
+		if !c.CHWrite && c.Release == relNone {
+			c.Release = relResetBody
+		}
+	}
 	c.Again = rnd.Intn(2) == 0 && c.Release != relPool && c.Write != wServer
 	if !c.IsReq && rnd.Intn(8) == 0 {
 		c.Skip = 1 + rnd.Intn(3)
@@ -219,6 +246,11 @@ func genConfig(rnd *rand.Rand) config {
 	return c
 }
 
+// compressed reports whether fasthttp wraps the stream into a compressedBodyStream (own goroutine).
+func (c *config) compressed() bool {
+	return c.Write == wGzip || c.Write == wDeflate || c.Write == wCompress || (c.Write == wServer && c.Enc != "")
+}
+
 type result struct {
 	wire       []byte
 	sinkFail   bool
@@ -226,6 +258,8 @@ type result struct {
 	escaped    any // panic that escaped from the write call
 	relPanic   any
 	s1, s2, s3 snapshot
+	s4         snapshot // after the compressor goroutine has gone (== s3 when there is none)
+	co         *core
 	hasCore    bool
 	expected   []byte
 	consistent bool // declared size agrees with what the stream produces
@@ -266,6 +300,8 @@ func (c *config) build(res *result) (io.Reader, *core, int) {
 		s = bwtS{co, true}
 	case kBWTOff:
 		s = bwtS{co, false}
+	case kCloserWithError:
+		s = cweS{co}
 	}
 	size := -1
 	switch c.SizeMode {
@@ -352,7 +388,7 @@ func execute(c *config, faultAt int) (res *result) {
 			stream, co, size = c.build(res)
 		}
 		res.hasCore = co != nil
-		srv := &fasthttp.Server{Logger: discardLogger{}, NoDefaultServerHeader: true, Handler: func(ctx *fasthttp.RequestCtx) {
+		handler := func(ctx *fasthttp.RequestCtx) {
 			if c.Skip != 0 && !c.SkipLate {
 				setSkip(&ctx.Response, c.Skip)
 			}
@@ -365,12 +401,83 @@ func execute(c *config, faultAt int) (res *result) {
 				setSkip(&ctx.Response, c.Skip)
 			}
 			ctx.Response.ImmediateHeaderFlush = c.ImmFlush
-		}}
-		conn := &scriptConn{in: []byte("GET /c34 HTTP/1.1\r\nHost: h.example\r\n\r\n"), out: snk}
+		}
+		in := "GET /c34 HTTP/1.1\r\nHost: h.example\r\n\r\n"
+		if c.Enc != "" {
+			handler = fasthttp.CompressHandlerBrotliLevel(handler, fasthttp.CompressBrotliDefaultCompression, fasthttp.CompressDefaultCompression)
+			in = "GET /c34 HTTP/1.1\r\nHost: h.example\r\nAccept-Encoding: " + c.Enc + "\r\n\r\n"
+		}
+		srv := &fasthttp.Server{Logger: discardLogger{}, NoDefaultServerHeader: true, Handler: handler}
+		conn := &scriptConn{in: []byte(in), out: snk}
 		guard("ServeConn", &res.escaped, func() { res.writeErr = srv.ServeConn(conn) })
 		res.wrote = true
-		res.s1 = snapOf(co)
+		res.s1, res.co = snapOf(co), co
 		res.s2, res.s3 = res.s1, res.s1
+		res.wire, res.sinkFail = snk.buf, snk.failed
+		return res
+	}
+
+	if c.Write == wCompress {
+		var req fasthttp.Request
+		req.Header.SetMethod("GET")
+		req.SetRequestURI("http://h.example/c34")
+		req.Header.Set("Accept-Encoding", c.Enc)
+		var ctx fasthttp.RequestCtx
+		ctx.Init(&req, nil, discardLogger{})
+		resp := &ctx.Response
+		var stream io.Reader
+		var size int
+		var sw fasthttp.StreamWriter
+		if c.Kind == kStreamWriter {
+			sw = c.streamWriter(res)
+		} else {
+			stream, co, size = c.build(res)
+		}
+		res.hasCore, res.co = co != nil, co
+		h := fasthttp.CompressHandlerBrotliLevel(func(ctx *fasthttp.RequestCtx) {
+			if c.Skip != 0 && !c.SkipLate {
+				setSkip(&ctx.Response, c.Skip)
+			}
+			if sw != nil {
+				ctx.SetBodyStreamWriter(sw)
+			} else {
+				ctx.SetBodyStream(stream, size)
+			}
+			if c.Skip != 0 && c.SkipLate {
+				setSkip(&ctx.Response, c.Skip)
+			}
+		}, fasthttp.CompressBrotliDefaultCompression, fasthttp.CompressDefaultCompression)
+		guard("CompressHandler", &res.escaped, func() { h(&ctx) })
+		resp.ImmediateHeaderFlush = c.ImmFlush
+		if c.CHWrite && res.escaped == nil {
+			res.wrote = true
+			guard("Response.Write", &res.escaped, func() {
+				res.writeErr = resp.Write(bw)
+				if res.writeErr == nil {
+					res.writeErr = bw.Flush()
+				}
+			})
+		}
+		res.s1 = snapOf(co)
+		guard("release", &res.relPanic, func() {
+			switch c.Release {
+			case relReset:
+				resp.Reset()
+			case relResetBody:
+				resp.ResetBody()
+			case relCloseBodyStream:
+				resp.CloseBodyStream()
+			case relSetBody:
+				resp.SetBody([]byte("replaced"))
+			case relSetBodyStream:
+				resp.SetBodyStream(other, -1)
+			}
+		})
+		res.s2 = snapOf(co)
+		if c.Again {
+			guard("second Reset", &res.relPanic, func() { resp.Reset() })
+		}
+		res.s3 = snapOf(co)
 		res.wire, res.sinkFail = snk.buf, snk.failed
 		return res
 	}
@@ -442,7 +549,7 @@ func execute(c *config, faultAt int) (res *result) {
 			stream, co, size = c.build(res)
 			resp.SetBodyStream(stream, size)
 		}
-		res.hasCore = co != nil
+		res.hasCore, res.co = co != nil, co
 		if c.Skip != 0 && c.SkipLate {
 			setSkip(resp, c.Skip)
 		}
@@ -488,6 +595,67 @@ func execute(c *config, faultAt int) (res *result) {
 	}
 	res.wire, res.sinkFail = snk.buf, snk.failed
 	return res
+}
+
+func (c *config) encName() string {
+	switch c.Write {
+	case wGzip:
+		return "gzip"
+	case wDeflate:
+		return "deflate"
+	}
+	return c.Enc
+}
+
+// streamGoroutines counts live goroutines started by fasthttp.NewStreamReader (StreamWriter and compressor
+// goroutines) that inherited the pprof label of the given execution.
+func streamGoroutines(id string) int {
+	var buf bytes.Buffer
+	pprof.Lookup("goroutine").WriteTo(&buf, 1)
+	n := 0
+	for _, blk := range strings.Split(buf.String(), "\n\n") {
+		if !strings.Contains(blk, `"c34":"`+id+`"`) || !strings.Contains(blk, "fasthttp.NewStreamReader") {
+			continue
+		}
+		k := 0
+		fmt.Sscanf(blk, "%d @", &k)
+		if k == 0 {
+			k = 1
+		}
+		n += k
+	}
+	return n
+}
+
+var execSeq atomic.Int64
+
+// executeAndSettle runs execute under a unique pprof label and, for compressed configurations, waits until
+// the compressor goroutine has exited before taking the final snapshot. ok=false: the cap fired (inconclusive).
+func executeAndSettle(c *config, faultAt int) (res *result, ok bool) {
+	if !c.compressed() {
+		res = execute(c, faultAt)
+		res.s4 = res.s3
+		return res, true
+	}
+	id := fmt.Sprint(execSeq.Add(1))
+	ok = true
+	pprof.Do(context.Background(), pprof.Labels("c34", id), func(context.Context) {
+		res = execute(c, faultAt)
+		deadline := time.Now().Add(30 * time.Second) // generous cap, inconclusive if it fires
+		for spin := 0; streamGoroutines(id) > 0; spin++ {
+			if time.Now().After(deadline) {
+				ok = false
+				break
+			}
+			if spin < 20 {
+				runtime.Gosched()
+			} else {
+				time.Sleep(200 * time.Microsecond)
+			}
+		}
+	})
+	res.s4 = snapOf(res.co)
+	return res, ok
 }
 
 func setSkip(resp *fasthttp.Response, k int) {
@@ -632,11 +800,23 @@ func (j *judge) judge(c *config, faultAt int, res *result, fclass string) {
 				}
 			}
 		}
-		if res.s3.readsAfterClose > 0 {
-			if c.Write == wGzip || c.Write == wDeflate {
+		if c.compressed() {
+			// the compressor goroutine has finished by now: the final count is what the user's stream saw in total
+			r.Event("compressed_close_counts_judged_after_goroutine_exit", 1)
+			if res.s4.closes > res.s3.closes {
+				r.Event("closes_seen_only_after_goroutine_exit", 1)
+			}
+			if res.s4.closes == 0 {
+				viol("compressed-stream-never-closed-"+how, fmt.Sprintf("original stream behind the %s compressor was never closed (compressor goroutine has exited)", c.encName()))
+			} else if res.s4.closes > 1 && res.s3.closes <= 1 {
+				viol("compressed-stream-closed-again-by-compressor-goroutine-"+how, fmt.Sprintf("original stream behind the %s compressor: Close called %d times once the compressor goroutine had exited (%d when the caller was done: discard and goroutine both closed it)", c.encName(), res.s4.closes, res.s3.closes))
+			}
+		}
+		if res.s4.readsAfterClose > 0 {
+			if c.compressed() {
 				r.Event("skipped_read_after_discard_close_in_compressor_goroutine", 1)
 			} else {
-				viol("read-after-close", fmt.Sprintf("%d Read/WriteTo calls arrived after Close", res.s3.readsAfterClose))
+				viol("read-after-close", fmt.Sprintf("%d Read/WriteTo calls arrived after Close", res.s4.readsAfterClose))
 			}
 		}
 	}
@@ -691,6 +871,10 @@ func (j *judge) judge(c *config, faultAt int, res *result, fclass string) {
 		viol("wire-trailing-bytes", fmt.Sprintf("%d bytes after the message: %s", len(m.rest), mon.Short(m.rest, 60)))
 	}
 	got := m.body
+	if enc != "" && enc != "gzip" && enc != "deflate" {
+		r.Event("skipped_bytes_encoding_without_stdlib_decoder", 1) // br, zstd: framing was still checked
+		return
+	}
 	if enc != "" {
 		d, err := decompress(enc, m.body)
 		if err != nil {
@@ -758,19 +942,19 @@ func classOf(c *config, res *result, fclass string) string {
 	case c.DataLen > 0:
 		lb = "1+"
 	}
-	return fmt.Sprintf("req=%v/%s/size=%d/%s/rel=%s/skip=%d/fault=%s/panic=%v/err=%v/wire=%s/len=%s/wt=%v",
-		c.IsReq, kindNames[c.Kind], c.SizeMode, writeNames[c.Write], relNames[c.Release], c.Skip, fclass, c.PanicAt >= 0, c.ErrAt >= 0, wire, lb, res.s3.usedWriteTo)
+	return fmt.Sprintf("req=%v/%s/size=%d/%s/enc=%s/chw=%v/rel=%s/skip=%d/fault=%s/panic=%v/err=%v/wire=%s/len=%s/wt=%v",
+		c.IsReq, kindNames[c.Kind], c.SizeMode, writeNames[c.Write], c.Enc, c.CHWrite, relNames[c.Release], c.Skip, fclass, c.PanicAt >= 0, c.ErrAt >= 0, wire, lb, res.s3.usedWriteTo)
 }
 
 func TestC34(t *testing.T) {
 	r := mon.Start(t, "C34")
 	defer r.Finish()
-	r.Rule("configuration = {request, response} x stream kind {plain Reader, ReadCloser, LimitedReader, bytes.Reader, bytes.Buffer, WriterTo, BodyWriterTo on/off, SetBodyStreamWriter} x content length 0-24000 x read/WriteTo chunk plan x declared size {equal, shorter, longer, -1} x {Read panics at byte k, Read fails at byte k, (n,EOF), (0,nil)} x bufio size 16-65536 x {no write, Write, WriteGzip, WriteDeflate, Server.ServeConn} x release {none, Reset, ResetBody, ReleaseRequest/ReleaseResponse, CloseBodyStream, SetBody, SetBodyStream(other)} x second Reset x {204, 304, SkipBody} x ImmediateHeaderFlush; " +
+	r.Rule("configuration = {request, response} x stream kind {plain Reader, ReadCloser, LimitedReader, bytes.Reader, bytes.Buffer, WriterTo, BodyWriterTo on/off, ReadCloser with CloseWithError, SetBodyStreamWriter} x content length 0-24000 x read/WriteTo chunk plan x declared size {equal, shorter, longer, -1} x {Read panics at byte k, Read fails at byte k, (n,EOF), (0,nil)} x bufio size 16-65536 x {no write, Write, WriteGzip, WriteDeflate, CompressHandlerBrotliLevel(gzip|deflate|br|zstd) on a RequestCtx with or without a following Write, Server.ServeConn with or without CompressHandler} x release {none, Reset, ResetBody, ReleaseRequest/ReleaseResponse, CloseBodyStream, SetBody, SetBodyStream(other)} x second Reset x {204, 304, SkipBody} x ImmediateHeaderFlush; " +
 		"every configuration is executed with a healthy peer and then with the peer failing after n bytes (n = 0, last byte, head/body boundary, PRNG positions); one evaluation = one execution; distinct = feature vector incl. fault class and resulting framing; non-trivial = the stream has bytes and is either an instrumented Closer or had its bytes compared")
 	r.Assume("exact-bytes is judged only when the declared size agrees with what the stream produces (or is -1) and neither the stream nor the peer failed; declared != produced framing belongs to C03 (counted as skipped_bytes_declared_size_differs_C03)")
 	r.Assume("a panic from a REQUEST stream's Read propagates to the caller by design: the harness recovers, performs the release operation, then counts Close calls; after a recovered RESPONSE stream panic the count is likewise taken after the release operation")
 	r.Assume("SetBody and SetBodyStream(other) are treated as resets of the body")
-	r.Assume("with WriteGzip/WriteDeflate fasthttp reads the original stream in a compressor goroutine and closes it from the writer side when the write is abandoned (upstream tests require this), so a Read arriving after Close is counted, not judged, on that path; panicking streams are not combined with compression or SetBodyStreamWriter (the panic would be raised in a goroutine fasthttp does not guard)")
+	r.Assume("with WriteGzip/WriteDeflate fasthttp reads the original stream in a compressor goroutine and closes it from the writer side when the write is abandoned (upstream tests require this), so a Read arriving after Close is counted, not judged, on that path; the Close COUNT is judged there too, after the compressor goroutine (identified by an inherited pprof label and the NewStreamReader frame) has exited (30 s cap, inconclusive if it fires); panicking streams are not combined with compression or SetBodyStreamWriter (the panic would be raised in a goroutine fasthttp does not guard); br and zstd bodies are checked for framing and Close counts only (no stdlib decoder)")
 	r.Assume("SetBodyStreamWriter pipes are not instrumentable for Close counts; instead the StreamWriter function must have returned after the write/release (generous 30 s watchdog, inconclusive if it fires)")
 	r.Assume("the independent decoder and net/http are correct readers of RFC 9112 framing")
 
@@ -784,8 +968,13 @@ func TestC34(t *testing.T) {
 		c := genConfig(rnd)
 		j := &judge{r: r, idx: i}
 		run := func(faultAt, headLen, wireLen int) *result {
-			res := execute(&c, faultAt)
+			res, settled := executeAndSettle(&c, faultAt)
 			fclass := faultClass(faultAt, headLen, wireLen)
+			if !settled {
+				swHung.Add(1)
+				r.Inconclusive(fmt.Sprintf("case %d (fault=%s): compressor goroutine still running 30 s after the write/release", i, fclass))
+				return res
+			}
 			if res.swDone != nil {
 				select {
 				case <-res.swDone:
@@ -813,6 +1002,9 @@ func TestC34(t *testing.T) {
 			return res
 		}
 		clean := run(-1, 0, 0)
+		if c.Write == wCompress && !c.CHWrite && r.Thorough() {
+			run(-1, 0, 0) // a discard without any write has no fault positions: repeat it for schedule diversity
+		}
 		if c.Write == wNone || len(clean.wire) == 0 {
 			return
 		}
@@ -842,5 +1034,6 @@ func TestC34(t *testing.T) {
 		r.Require("faults_injected", nCfg)
 		r.Require("stream_panics_injected", nCfg/20)
 		r.Require("fault_prefix_checked", nCfg/20)
+		r.Require("compressed_close_counts_judged_after_goroutine_exit", nCfg/20)
 	}
 }
